@@ -34,7 +34,7 @@ COMPONENTS = {"real": ["redress.circuit.CircuitBreaker", "policy level: redress.
               "stub": ["clock (SimClock)", "operation/classifier (scripted)", "RefBreaker is the oracle"]}
 ASSUMPTIONS = ["rolling window is half-open: a failure aged exactly window_s no longer counts",
                "a failure recorded while OPEN is ignored (statement silent; model mirrors the code)", "sampling, not proof"]
-BUDGETS = {"quick": (40000, 40), "thorough": (3000000, 280)}
+BUDGETS = {"quick": (120000, 90), "thorough": (6000000, 285)}
 
 
 def gen(seed, tier="quick"):
